@@ -321,6 +321,16 @@ def rtsp_line(items):
     return "c06.rtsp %s" % (";".join(x.text() if isinstance(x, Msg) else x for x in items) if items else "-")
 
 
+def e2e_line(frag_ms, hls, rtsp, msgs, joins):
+    """joins: {index: ["Jt:1", "Jr:5", ...]} inserted in front of message `index` (len(msgs) = after the last one)"""
+    items = []
+    for i, m in enumerate(msgs):
+        items += joins.get(i, [])
+        items.append(m.text() if isinstance(m, Msg) else m)
+    items += joins.get(len(msgs), [])
+    return "c06.e2e %d:%d:%d %s" % (frag_ms, hls, rtsp, ";".join(items) if items else "-")
+
+
 def rand_script(rng, n, p):
     return "".join("1" if rng.random() < p else "0" for _ in range(n))
 
@@ -493,6 +503,28 @@ def gen_cases(tier, rng):
                         dict(audio_sizes=[80, 160, 320], audio_ms=rng.choice([10, 20, 40]), sizes=[4, 90, 1500], hevc_mode=rng.choice(["classic", "ex1"])))
         items = ([metadata_msg({"g711a": 7, "g711u": 8, "opus": 13}[acodec], rng.choice([None, 8000, 48000]))] if rng.random() < 0.5 else []) + ms
         yield Case(rtsp_line(items), cls="rtsp-random-g711")
+    # ---------------- (iii) end to end through logic.Group: HTTP-TS subscribers, HLS segments, RTSP subscribers
+    n_e2e = 120 if thorough else 36
+    for i in range(n_e2e):
+        vcodec = rng.choice(["avc", "avc", "hevc", None])
+        acodec = rng.choice(["aac", "aac", "opus", None]) if vcodec else rng.choice(["aac", "opus"])
+        opts = dict(sizes=rng.choice([[1, 2, 5, 40], [5, 160, 200, 1300], [3, 2500, 30]]), bframes=rng.random() < 0.4,
+                    inband=rng.choice([0, 0.5]), sei=rng.choice([0, 0.3]), aud=rng.choice([0, 0.5]), sfi=rng.choice([3, 4, 8]),
+                    fps_ms=rng.choice([33, 40, 200, 500]), hevc_mode=rng.choice(["classic", "ex1"]), gop=rng.choice([1, 3, 5]),
+                    nals_max=rng.choice([1, 3]), audio_sizes=rng.choice([[3, 60, 200], [400, 700]]), audio_ms=rng.choice([None, None, 60, 200]),
+                    start_ts=rng.choice([0, 777]))
+        if rng.random() < 0.25:
+            opts["jump"] = (rng.randrange(2, 12), rng.choice([-300, 700, 5000, 30000]))
+        nv = rng.randrange(3, 16) if vcodec else 0
+        na = rng.randrange(3, 30) if acodec else 0
+        ms = gen_stream(rng, vcodec, acodec, nv, na, opts)
+        joins = {}
+        ids = iter(range(1, 20))
+        for _ in range(rng.randrange(1, 4)):
+            joins.setdefault(rng.choice([0, 0, rng.randrange(len(ms) + 1)]), []).append("Jt:%d" % next(ids))
+        for _ in range(rng.randrange(0, 3)):
+            joins.setdefault(rng.choice([0, rng.randrange(len(ms) + 1)]), []).append("Jr:%d" % next(ids))
+        yield Case(e2e_line(rng.choice([100, 400, 1000, 3000]), rng.choice([1, 1, 1, 0]), 1, ms, joins), cls="e2e")
     # late sequence headers (after the probe / analysis windows): known limitation classes
     for k in (17, 20):
         ms = gen_stream(rng, "avc", "aac", 6, k + 8, dict(vsh_at=k + 2, video_start=23 * (k + 2), sizes=[9], audio_sizes=[8], sfi=4))
@@ -766,69 +798,60 @@ def check_video_unit(u, e):
 
 
 def ts_clock_check(pairs, what):
-    """pairs: [(ts_ms_plus_offset, value33, below_base)] -> (error or None, known-finding flag)"""
+    """pairs: [(90 * published time, value33, first published time of the track, published time)]: one constant per
+    track -> (error or None, known-finding flag).  Frames stamped below the first frame of their track (the class of
+    F-23) are judged separately: the constant is taken from the frames that are not."""
     base = None
+    bad = None
     for want, got, first_ts, ts in pairs:
+        below = first_ts is not None and ts < first_ts
+        if below:
+            continue
         if base is None:
             base = (got - want) % M33
-            continue
-        if (got - want) % M33 != base:
-            return ("%s clock: %d for published time %d (constant of the track %d)" % (what, got, ts, base), ts < first_ts)
+        elif (got - want) % M33 != base:
+            return ("%s clock: %d for published time %d (constant of the track %d)" % (what, got, ts, base), False)
+    for want, got, first_ts, ts in pairs:
+        if first_ts is not None and ts < first_ts and base is not None and (got - want) % M33 != base:
+            return ("%s clock: %d for published time %d below the track's first time %d (constant of the track %d)" % (what, got, ts, first_ts, base), True)
     return (None, False)
 
 
-def oracle_ts(line_items, out):
-    pub = read_published(line_items)
-    items = [] if out == "-" else out.split(";")
-    if out.startswith(("panic", "crash", "timeout", "bad-", "unknown-op", "err")):
-        return False, "remuxer failed: " + out[:80]
-    pats = [i for i, x in enumerate(items) if x.startswith("P:")]
-    tsi = [x for x in items if x.startswith("T:")]
-    if not items:
-        # nothing came out: acceptable only while the probe has not seen both codecs / 16 messages
-        msgs = [p for p in pub if p["kind"] not in ("F", "D", "meta")]
-        has_v = any(p["kind"] in ("vsh", "video") for p in msgs)
-        has_a = any(p["kind"] in ("ash", "audio") for p in msgs)
-        if (has_v and has_a) or len(msgs) >= 16:
-            return False, "no output although the probe window was complete"
-        return True, ""
-    if pats != [0]:
-        return False, "PAT/PMT must come exactly once, first (positions %r)" % pats
+def parse_patpmt(pp):
+    """376 bytes -> {pid: (stream_type, descriptors)}; raises on anything a conforming reader refuses"""
+    if len(pp) != 376:
+        raise R09.Bad("PAT/PMT block is %d bytes" % len(pp))
+    pid0, pat = R09.ref_section(pp[:188])
+    pid1, pmt = R09.ref_section(pp[188:])
+    if pid0 != 0 or pat["table_id"] != 0:
+        raise R09.Bad("first packet is not a PAT")
+    progs = [((pat["data"][i] << 8) | pat["data"][i + 1], ((pat["data"][i + 2] & 31) << 8) | pat["data"][i + 3]) for i in range(0, len(pat["data"]), 4)]
+    if len(progs) != 1 or progs[0][1] != pid1 or pmt["table_id"] != 2 or pmt["ext"] != progs[0][0]:
+        raise R09.Bad("PAT does not point at the PMT")
+    d = pmt["data"]
+    pil = ((d[2] & 15) << 8) | d[3]
+    es = d[4 + pil:]
+    streams = {}
+    i = 0
+    while i < len(es):
+        st, pid, eil = es[i], ((es[i + 1] & 31) << 8) | es[i + 2], ((es[i + 3] & 15) << 8) | es[i + 4]
+        streams[pid] = (st, R09.ref_descriptors(es[i + 5:i + 5 + eil]))
+        i += 5 + eil
+    return streams
+
+
+def check_ts_stream(pub, streams, data, disposed, suffix):
+    """the property for one transport stream (PAT/PMT already read into `streams`, `data` = the packets behind it).
+    suffix=False: the stream holds everything from the start (c06.ts); suffix=True: a consumer that joined somewhere:
+    every track must be a tail of what was published.  Returns (ok, why); why starts with a finding tag when it is one."""
     try:
-        pp = tok_bytes(items[0][2:])
-        if len(pp) != 376:
-            return False, "PAT/PMT block is %d bytes" % len(pp)
-        pid0, pat = R09.ref_section(pp[:188])
-        pid1, pmt = R09.ref_section(pp[188:])
-        if pid0 != 0 or pat["table_id"] != 0:
-            return False, "first packet is not a PAT"
-        progs = [((pat["data"][i] << 8) | pat["data"][i + 1], ((pat["data"][i + 2] & 31) << 8) | pat["data"][i + 3]) for i in range(0, len(pat["data"]), 4)]
-        if len(progs) != 1 or progs[0][1] != pid1 or pmt["table_id"] != 2 or pmt["ext"] != progs[0][0]:
-            return False, "PAT does not point at the PMT"
-        d = pmt["data"]
-        pil = ((d[2] & 15) << 8) | d[3]
-        es = d[4 + pil:]
-        streams = {}
-        i = 0
-        while i < len(es):
-            st, pid, eil = es[i], ((es[i + 1] & 31) << 8) | es[i + 2], ((es[i + 3] & 15) << 8) | es[i + 4]
-            streams[pid] = (st, R09.ref_descriptors(es[i + 5:i + 5 + eil]))
-            i += 5 + eil
-        ev = []
-        for x in tsi:
-            f = x.split(":")
-            ev.append(dict(nested=f[1] == "1", pid=num(f[2]), sid=num(f[3]), key=f[4] == "1", dts=num(f[5]), pts=num(f[6]), cts=num(f[7]),
-                           boundary=f[9] == "1", packets=tok_bytes(f[11])))
-        data = b"".join(e["packets"] for e in ev)
         units = demux_ts(data)
     except (R09.Bad, ValueError, IndexError) as ex:
         return False, "TS output does not demultiplex: %s" % ex
-    # every event = exactly one unit (the packets of a frame are contiguous)
     for pid in units:
         if pid not in (0x100, 0x101):
             return False, "unexpected PID 0x%x" % pid
     late = []
-    # a track whose first message comes after the probe window (16 messages) is not announced in the PMT
     msg_kinds = [p["kind"] for p in pub if p["kind"] not in ("F", "D")]
     first_v = next((i for i, k in enumerate(msg_kinds) if k in ("vsh", "video")), None)
     first_a = next((i for i, k in enumerate(msg_kinds) if k in ("ash", "audio")), None)
@@ -844,36 +867,47 @@ def oracle_ts(line_items, out):
             if not late_v:
                 return False, "video PID 0x100 carries %s but the PMT declares %r" % (codec, streams.get(0x100))
             late.append("video PID 0x100 carries %s but the PMT declares %r" % (codec, streams.get(0x100)))
-    # match units to expected entries in order
+
     def veq(e, u):
         return check_video_unit(u, e) is None
-    err = subseq_match([(e, e["mandatory"]) for e in vexp], vun, veq)
-    if err:
-        # say why the first non-matching unit fails
+    if suffix:
+        if len(vun) > len(vexp):
+            return False, "video: %d access units recovered, %d published" % (len(vun), len(vexp))
+        vcand = vexp[len(vexp) - len(vun):]
+        for k, (e, u) in enumerate(zip(vcand, vun)):
+            why = check_video_unit(u, e)
+            if why:
+                return False, "video frame %d from the join point: %s" % (k, why)
+        if vun and not (vcand[0]["has_key_nal"] and vcand[0]["key"]):
+            return False, "the consumer's first video frame is not a key frame"
+        vmatched = list(zip(vcand, vun))
+    else:
+        err = subseq_match([(e, e["mandatory"]) for e in vexp], vun, veq)
+        if err:
+            k = 0
+            for u in vun:
+                while k < len(vexp) and not veq(vexp[k], u) and not vexp[k]["mandatory"]:
+                    k += 1
+                if k >= len(vexp):
+                    return False, "video: " + err
+                why = check_video_unit(u, vexp[k])
+                if why:
+                    return False, "video frame %d: %s" % (k, why)
+                k += 1
+            return False, "video: " + err
+        vmatched = []
         k = 0
         for u in vun:
-            while k < len(vexp) and not veq(vexp[k], u) and not vexp[k]["mandatory"]:
+            while not veq(vexp[k], u):
                 k += 1
-            if k >= len(vexp):
-                return False, "video: " + err
-            why = check_video_unit(u, vexp[k])
-            if why:
-                return False, "video frame %d: %s" % (k, why)
+            vmatched.append((vexp[k], u))
             k += 1
-        return False, "video: " + err
-    # time stamps of the matched units
-    k = 0
     pairs_d, pairs_p = [], []
-    first_v = None
-    for u in vun:
-        while not veq(vexp[k], u):
-            k += 1
-        e = vexp[k]
-        k += 1
-        if first_v is None:
-            first_v = e["ts"]
-        pairs_d.append((90 * e["ts"], u["dts"], first_v, e["ts"]))
-        pairs_p.append((90 * (e["ts"] + e["cts"]), u["pts"], first_v, e["ts"]))
+    # "below the base" is judged against the first frame of the TRACK (the filter's base), which a late joiner does not see
+    track_first_v = next((e["ts"] for e in vexp if e["mandatory"]), None)
+    for e, u in vmatched:
+        pairs_d.append((90 * e["ts"], u["dts"], track_first_v, e["ts"]))
+        pairs_p.append((90 * (e["ts"] + e["cts"]), u["pts"], track_first_v, e["ts"]))
         if u["rai"] != e["key"]:
             return False, "random_access_indicator %s on a frame published as key=%s" % (u["rai"], e["key"])
         if u["sid"] != 0xE0:
@@ -892,7 +926,6 @@ def oracle_ts(line_items, out):
                 aexp.append((it["frame"], asc, it["ts"], asc is not None and len(asc) >= 2))
             else:
                 aexp.append((it["frame"], None, it["ts"], True))
-    disposed = any(p["kind"] == "D" for p in pub[-1:])
     got = []       # (frame, header or None, pts of its PES or None when not the first of the PES)
     try:
         for u in aun:
@@ -916,25 +949,30 @@ def oracle_ts(line_items, out):
             if not late_a:
                 return False, "audio PID 0x101 carries %s but the PMT declares %r" % (acodec, streams.get(0x101))
             late.append("audio PID 0x101 carries %s but the PMT declares %r" % (acodec, streams.get(0x101)))
-    exp_list = [((f, a, t), m and disposed) for (f, a, t, m) in aexp]
-    # without a final Dispose the tail may still be cached: then the recovered frames are a prefix of the mandatory ones
-    err = subseq_match(exp_list, got, lambda e, g: e[0] == g[0])
-    if err:
-        return False, "audio: " + err
-    if not disposed:
-        # everything but a suffix must be there
-        mand = [f for (f, a, t, m) in aexp if m]
-        gotf = [g[0] for g in got]
-        if gotf != mand[:len(gotf)] and len(gotf) <= len(mand):
-            pass
-    k = 0
-    pairs_a = []
-    first_a = None
-    for g in got:
-        while aexp[k][0] != g[0]:
+    if suffix:
+        mand = [x for x in aexp if x[3]]
+        if len(got) > len(mand):
+            return False, "audio: %d frames recovered, %d published" % (len(got), len(mand))
+        acand = mand[len(mand) - len(got):]
+        for k, (x, g) in enumerate(zip(acand, got)):
+            if x[0] != g[0]:
+                return False, "audio frame %d from the join point differs from the published one" % k
+        amatched = list(zip(acand, got))
+    else:
+        exp_list = [((f, a, t), m and disposed) for (f, a, t, m) in aexp]
+        err = subseq_match(exp_list, got, lambda e, g: e[0] == g[0])
+        if err:
+            return False, "audio: " + err
+        amatched = []
+        k = 0
+        for g in got:
+            while aexp[k][0] != g[0]:
+                k += 1
+            amatched.append((aexp[k], g))
             k += 1
-        f, a, t, m = aexp[k]
-        k += 1
+    pairs_a = []
+    track_first_a = next((x[2] for x in aexp if x[3]), None)
+    for (f, a, t, m), g in amatched:
         if g[1] is not None:
             ra = R19A.ref_asc(a) if a is not None else None
             h = g[1]
@@ -946,30 +984,54 @@ def oracle_ts(line_items, out):
             if h["frame_length"] != len(f) + 7:
                 return False, "aac_frame_length %d for a %d byte frame" % (h["frame_length"], len(f))
         if g[2] is not None:
-            if first_a is None:
-                first_a = t
-            pairs_a.append((90 * t, g[2], first_a, t))
+            pairs_a.append((90 * t, g[2], track_first_a, t))
     # ---- clocks
-    kf = False
+    kf = None
     for pairs, what in ((pairs_d, "video DTS"), (pairs_p, "video PTS"), (pairs_a, "audio PTS")):
         e2, below = ts_clock_check(pairs, what)
         if e2:
             if below:
-                kf = True
-                kf_why = e2
+                kf = e2
             else:
                 return False, e2
-    # ---- join points: a boundary frame is a decodable starting point
-    vsh_seen = False
-    for e in ev:
-        if e["boundary"]:
-            if e["pid"] == 0x100 and not e["key"]:
-                return False, "boundary flag on a non-key video frame"
     if late:
         return False, "LATE-PMT " + late[0]
     if kf:
-        return False, "BELOW-BASE " + kf_why
+        return False, "BELOW-BASE " + kf
     return True, ""
+
+
+def oracle_ts(line_items, out):
+    pub = read_published(line_items)
+    items = [] if out == "-" else out.split(";")
+    if out.startswith(("panic", "crash", "timeout", "bad-", "unknown-op", "err")):
+        return False, "remuxer failed: " + out[:80]
+    pats = [i for i, x in enumerate(items) if x.startswith("P:")]
+    tsi = [x for x in items if x.startswith("T:")]
+    if not items:
+        # nothing came out: acceptable only while the probe has not seen both codecs / 16 messages
+        msgs = [p for p in pub if p["kind"] not in ("F", "D", "meta")]
+        has_v = any(p["kind"] in ("vsh", "video") for p in msgs)
+        has_a = any(p["kind"] in ("ash", "audio") for p in msgs)
+        if (has_v and has_a) or len(msgs) >= 16:
+            return False, "no output although the probe window was complete"
+        return True, ""
+    if pats != [0]:
+        return False, "PAT/PMT must come exactly once, first (positions %r)" % pats
+    try:
+        streams = parse_patpmt(tok_bytes(items[0][2:]))
+    except (R09.Bad, ValueError, IndexError) as ex:
+        return False, "PAT/PMT: %s" % ex
+    ev = []
+    for x in tsi:
+        f = x.split(":")
+        ev.append(dict(nested=f[1] == "1", pid=num(f[2]), sid=num(f[3]), key=f[4] == "1", dts=num(f[5]), pts=num(f[6]), cts=num(f[7]),
+                       boundary=f[9] == "1", packets=tok_bytes(f[11])))
+    for e in ev:
+        if e["boundary"] and e["pid"] == 0x100 and not e["key"]:
+            return False, "boundary flag on a non-key video frame"
+    disposed = any(p["kind"] == "D" for p in pub[-1:])
+    return check_ts_stream(pub, streams, b"".join(e["packets"] for e in ev), disposed, False)
 
 
 def analysis_end(pub):
@@ -1141,6 +1203,144 @@ def oracle_rtsp(line_items, out):
     return True, ""
 
 
+# ================================================================================================== oracle: c06.e2e
+def check_rtp_track(codec_kind, pkts, exp, rate, what):
+    """pkts: [dict(m, seq, ts, payload)] of one track of one subscriber; exp: [(units-or-frame, ts_ms)] published; the
+    recovered frames must be a tail of exp"""
+    for i, p in enumerate(pkts):
+        if p["seq"] != i & 0xFFFF:
+            return "%s sequence number %d at position %d" % (what, p["seq"], i)
+    groups, cur = [], []
+    for p in pkts:
+        cur.append(p)
+        if p["m"]:
+            groups.append(cur)
+            cur = []
+    if cur:
+        return "%s: last frame has no marker" % what
+    if len(groups) > len(exp):
+        return "%s: %d frames recovered, %d published" % (what, len(groups), len(exp))
+    cand = exp[len(exp) - len(groups):]
+    for g, (u, ts) in zip(groups, cand):
+        if len(set(p["ts"] for p in g)) != 1:
+            return "%s: one frame, several RTP time stamps" % what
+        try:
+            if codec_kind == "avc":
+                got = R12.ref_depack_h264([p["payload"] for p in g])
+            elif codec_kind == "hevc":
+                got = R12.ref_depack_h265([p["payload"] for p in g])
+            elif codec_kind == "aac":
+                got = R12.ref_depack_aac([p["payload"] for p in g])
+            else:
+                got = [p["payload"] for p in g]
+        except ValueError as ex:
+            return "%s depacketisation: %s" % (what, ex)
+        if got != u:
+            return "%s frame at %d ms differs from the published one" % (what, ts)
+        want = ts * rate // 1000
+        if min((g[0]["ts"] - want) % (1 << 32), (want - g[0]["ts"]) % (1 << 32)) > 1:
+            return "%s RTP time stamp %d for %d ms at %d Hz" % (what, g[0]["ts"], ts, rate)
+    return None
+
+
+def oracle_e2e(cfg, line_items, out):
+    if out.startswith(("panic", "crash", "timeout", "bad-", "unknown-op", "err")):
+        return False, "group run failed: " + out[:80]
+    msg_items = [x for x in line_items if x[:2] in ("M:", "I:")]
+    pub = read_published(msg_items)
+    parts = {}
+    if out != "-":
+        for p in out.split("|"):
+            k, _, v = p.partition("=")
+            parts[k] = v
+    finding = None
+    for k, v in parts.items():
+        if k.startswith("ts") or k == "hls":
+            if k == "hls":
+                if v == "none":
+                    continue
+                data = b""
+                streams = None
+                for seg in v.split(","):
+                    sb = tok_bytes(seg)
+                    try:
+                        st = parse_patpmt(sb[:376])
+                    except (R09.Bad, ValueError, IndexError) as ex:
+                        return False, "hls segment does not start with PAT/PMT: %s" % ex
+                    streams = streams or st
+                    if st != streams:
+                        return False, "hls segments announce different programs"
+                    data += sb[376:]
+            else:
+                b = tok_bytes(v)
+                if not b:
+                    continue
+                try:
+                    streams = parse_patpmt(b[:376])
+                except (R09.Bad, ValueError, IndexError) as ex:
+                    return False, "%s does not start with PAT/PMT: %s" % (k, ex)
+                data = b[376:]
+            ok, why = check_ts_stream(pub, streams, data, True, True)
+            if not ok:
+                if why.startswith(("LATE-PMT", "BELOW-BASE")):
+                    finding = finding or why
+                else:
+                    return False, "%s: %s" % (k, why)
+        elif k.startswith("rtp"):
+            sid = k[3:]
+            raw = tok_bytes(parts.get("sdp" + sid, "-"))
+            if not raw:
+                if v != "none":
+                    return False, "%s: packets without an SDP" % k
+                continue
+            try:
+                _, medias = R19S.rfc_read_sdp(raw)
+                views = {}
+                for m in medias:
+                    vw = R19S.rfc_rtp_view(m)
+                    views[vw["media"]] = vw
+            except R19S.SdpError as ex:
+                return False, "%s SDP: %s" % (k, ex)
+            vp, ap = [], []
+            if v != "none":
+                for x in v.split(","):
+                    ch, _, hx = x.partition(".")
+                    if ch.startswith("?"):
+                        return False, "%s: garbage on the interleaved connection" % k
+                    d = R12.parse_rtp(tok_bytes(hx))
+                    if d["v"] != 2 or d["p"] or d["x"] or d["cc"]:
+                        return False, "%s: RTP header" % k
+                    (vp if ch == "0" else ap if ch == "2" else None).append(dict(m=d["m"], seq=d["seq"], ts=d["ts"], payload=d["payload"], pt=d["pt"]))
+            vsh = next((p for p in pub if p["kind"] == "vsh"), None)
+            if vp:
+                vv = views.get(b"video")
+                codec = {b"H264": "avc", b"H265": "hevc"}.get(vv["codec"]) if vv else None
+                if codec is None or vsh is None or codec != vsh["codec"] or any(p["pt"] != vv["pt"] for p in vp):
+                    return False, "%s: video packets do not match the SDP" % k
+                exp = []
+                for fr in (p for p in pub if p["kind"] == "video"):
+                    u = [x for x in fr["nals"] if nal_type(fr["codec"], x) != AUD_TYPE[fr["codec"]]]
+                    if u:
+                        exp.append((u, fr["ts"]))
+                err = check_rtp_track(codec, vp, exp, 90000, "video")
+                if err:
+                    return False, "%s: %s" % (k, err)
+            if ap:
+                av = views.get(b"audio")
+                aframes = [p for p in pub if p["kind"] == "audio"]
+                acodec = aframes[0]["codec"] if aframes else None
+                want_name = {"aac": b"MPEG4-GENERIC", "opus": b"OPUS", "g711a": b"PCMA", "g711u": b"PCMU"}.get(acodec)
+                if av is None or av["codec"] != want_name or any(p["pt"] != av["pt"] for p in ap):
+                    return False, "%s: audio packets do not match the SDP" % k
+                exp = [([fr["frame"]], fr["ts"]) for fr in aframes]
+                err = check_rtp_track("aac" if acodec == "aac" else "raw", ap, exp, av["rate"], "audio")
+                if err:
+                    return False, "%s: %s" % (k, err)
+    if finding:
+        return False, finding
+    return True, ""
+
+
 # ================================================================================================== plumbing
 def case_items(line):
     f = line.split(" ")
@@ -1154,6 +1354,8 @@ def oracle(c, out):
             return oracle_ts([] if a[1] == "-" else a[1].split(";"), out)
         if op == "c06.rtsp":
             return oracle_rtsp([] if a[0] == "-" else a[0].split(";"), out)
+        if op == "c06.e2e":
+            return oracle_e2e(a[0], [] if a[1] == "-" else a[1].split(";"), out)
     except (IndexError, KeyError, ValueError, StopIteration) as ex:
         return False, "oracle could not read the output: %r" % (ex,)
     return None
@@ -1172,6 +1374,11 @@ def classify_finding(c, out):
     if r[1].startswith("MULTI-PS"):
         return "C06-rtsp-avc-several-parameter-sets"
     return None
+
+
+def split_impl(c, out):
+    """the part of the implementation's observation the model produces as well"""
+    return out
 
 
 def nontrivial(c, out):
